@@ -23,7 +23,9 @@ RULE = (
     "level (root, d/, d/e/) one of 25 options {no matching table, one table (3 precedences x 4 info shapes), two matching tables where the later (exact) one "
     "must win}.  ALL 30 x 25^2 = 18 750 two-level cells in quick (on levels (root, d/e) and (d, d/e)), ALL 30 x 24^3 three-level cells in thorough "
     "(sampled 1/64 in quick); plus the dep5 grid (30 x {no paragraph, one, two matching paragraphs}).  ~150 cells per generated project, judged through "
-    "`reuse lint --json` files[].copyrights / spdx_expressions incl. source and source_type.  Cells the statement does not determine (tables above an "
+    "`reuse lint --json` files[].copyrights / spdx_expressions incl. source and source_type; projects rotate over 10 directory-name pairs (incl. names that "
+    "sort before '.'), 6 file types (text, uncommentable-but-read types such as .json / .svg / .csv, code, unknown) and 4 root spellings (default, --root ., "
+    "--root ./, top of a Git repository).  Cells the statement does not determine (tables above an "
     "override, override without information) are only weakly checked.  Non-trivial = >= 2 sources present; distinct by cell."
 )
 ASSUMPTIONS = [
@@ -39,7 +41,11 @@ INFOS = ["none", "cop", "lic", "both"]
 LEVEL_OPTS = [("none",)] + [("one", p, i) for p in PRECS for i in INFOS] + [("two", p, i) for p in PRECS for i in INFOS]
 LEVEL_DIRS = ["", "d", "d/e"]
 # directory names for the two nested levels, varied per project: names sorting before and after 'REUSE.toml'
-DIR_NAMES = [("d", "e"), ("Docs", "e"), ("d", "3rdparty"), (".cfg", "A"), ("src", "Zeta"), ("REUSE", "x")]
+DIR_NAMES = [("d", "e"), ("Docs", "e"), ("d", "3rdparty"), (".cfg", "A"), ("src", "Zeta"), ("REUSE", "x"), ("(app)", "e"), ("+lib", "-old"), ("#x", "$y"), (" sp", "!z")]
+# how the project root is spelled: the default (absolute working directory), `--root .`, or found as the top of a Git repository ('.')
+# file types: plain text, types the tool cannot put a comment in (but still reads), code, unknown
+EXTS = ["txt", "json", "txt", "svg", "py", "csv", "txt", "unknownext", "ipynb"]
+ROOT_MODES = ["default", "dot", "git", "default", "dotslash"]
 
 
 def toml_str(s):
@@ -56,7 +62,8 @@ def build_project(cells, dep5=False, dirs=("d", "e")):
     expected = {}
     LEVEL_DIRS = ["", dirs[0], f"{dirs[0]}/{dirs[1]}"]  # noqa: N806
     for k, own, dotlic, opts in cells:
-        rel = f"{dirs[0]}/{dirs[1]}/f{k}.txt"
+        ext = EXTS[k % len(EXTS)]
+        rel = f"{dirs[0]}/{dirs[1]}/f{k}.{ext}"
         own_info = None
         if own == "binary":
             files[rel] = b"\x00\x01\x02\xff\xfe\x00SPDX-License-Identifier: LicenseRef-bin%d\n\x00" % k
@@ -109,7 +116,7 @@ def build_project(cells, dep5=False, dirs=("d", "e")):
                     # earlier table with the opposite of everything; it must lose.
                     # Shapes: exact/exact, exact then glob, glob then exact.
                     lprec = "override" if prec != "override" else "aggregate"
-                    glob = sub[: -len("txt")] + "*"
+                    glob = sub[: -len(ext)] + "*"
                     lose_path = sub
                     if k % 3 == 1:
                         win_path = glob
@@ -173,13 +180,15 @@ def observed_items(entry):
     return out
 
 
-def run_project(ctx, cells, dep5=False, mp=False, dirs=("d", "e")):
+def run_project(ctx, cells, dep5=False, mp=False, dirs=("d", "e"), root_mode="default"):
     files, expected = build_project(cells, dep5, dirs)
     root = ctx.fresh_dir()
     try:
         tree.write_tree(root, files)
-        res, data = tree.lint_json(root, mp=mp)
-        cdesc = {"cells": [[k, own, dl, [list(o) if o else None for o in opts]] for k, own, dl, opts in cells], "dep5": dep5, "dirs": list(dirs)}
+        if root_mode == "git":
+            tree.git_init(root)
+        res, data = tree.lint_json(root, mp=mp, extra={"dot": ("--root", "."), "dotslash": ("--root", "./")}.get(root_mode, ()))
+        cdesc = {"cells": [[k, own, dl, [list(o) if o else None for o in opts]] for k, own, dl, opts in cells], "dep5": dep5, "dirs": list(dirs), "root_mode": root_mode}
         if data is None:
             ctx.fail(cdesc, f"lint --json failed: {res.brief()}")
         by_path = {f["path"]: f for f in data["files"]}
@@ -192,10 +201,10 @@ def run_project(ctx, cells, dep5=False, mp=False, dirs=("d", "e")):
                 ctx.fail(cdesc, f"{rel} (one of several files matched by one shared table): reported {sorted(observed_items(ent)) if ent else None}, expected {sorted(exp)}")
         for k, own, dotlic, opts in cells:
             rel, exp, strict, allowed = expected[k]
-            cell = {"cells": [[k, own, dotlic, [list(o) if o else None for o in opts]]], "dep5": dep5, "dirs": list(dirs)}
+            cell = {"cells": [[k, own, dotlic, [list(o) if o else None for o in opts]]], "dep5": dep5, "dirs": list(dirs), "root_mode": root_mode}
             nsources = (own in ("cop", "lic", "both")) + (dotlic not in ("absent",)) + sum(1 for o in opts if o and o[0] != "none")
             ctx.count(("cell", own, dotlic, tuple(opts), dep5), nontrivial=nsources >= 2,
-                      labels=[f"own:{own}", f"dotlic:{dotlic}", "strict" if strict else "weak", f"dirs:{dirs[0]}/{dirs[1]}", "dep5" if dep5 else f"levels:{sum(1 for o in opts if o and o[0] != 'none')}"],
+                      labels=[f"own:{own}", f"dotlic:{dotlic}", "strict" if strict else "weak", f"dirs:{dirs[0]}/{dirs[1]}", f"root:{root_mode}", "dep5" if dep5 else f"levels:{sum(1 for o in opts if o and o[0] != 'none')}"],
                       sample={"file": rel, "own": own, "dotlicense": dotlic, "chain": [list(o) if o else None for o in opts], "dep5": dep5,
                               "expected": sorted(map(list, exp)), "strict": strict})
             ent = by_path.get(rel)
@@ -214,7 +223,7 @@ def run_project(ctx, cells, dep5=False, mp=False, dirs=("d", "e")):
 
 def replay(ctx, case):
     cells = [(k, own, dl, [tuple(o) if o else None for o in opts]) for k, own, dl, opts in case["cells"]]
-    run_project(ctx, cells, dep5=case.get("dep5", False), dirs=tuple(case.get("dirs", ("d", "e"))))
+    run_project(ctx, cells, dep5=case.get("dep5", False), dirs=tuple(case.get("dirs", ("d", "e"))), root_mode=case.get("root_mode", "default"))
 
 
 def batches(it, n):
@@ -260,7 +269,7 @@ def run(ctx):
         mine.append((own, dl, opts))
     for n, batch in enumerate(batches(mine, per_project)):
         cells = [(k, own, dl, opts) for k, (own, dl, opts) in enumerate(batch)]
-        run_project(ctx, cells, mp=(n % 7 == 3), dirs=DIR_NAMES[(n + ctx.shard + ctx.seed) % len(DIR_NAMES)])
+        run_project(ctx, cells, mp=(n % 7 == 3), dirs=DIR_NAMES[(n + ctx.shard + ctx.seed) % len(DIR_NAMES)], root_mode=ROOT_MODES[(n * 3 + ctx.shard + ctx.seed // 3) % len(ROOT_MODES)])
     # dep5 grid (small): every shard does its slice
     dep_cells = [(own, dl, [o]) for own in OWN for dl in DOTLIC for o in [("none",), ("one",), ("two",)]]
     dmine = [c for i, c in enumerate(dep_cells) if i % ctx.nshards == ctx.shard]
